@@ -283,13 +283,37 @@ def run(ctx):
     _emit(ctx, case, fails)
   ctx.info["exhaustive"] = False
 
+  collected = set()     # buckets already shrunk in an earlier chunk / by the lattice
+
   def orc(case):
     fails, labels, nt = evaluate(case)
     ctx.tick(case, labels=["hyp"] + labels, nontrivial=nt, sample_label="hyp:" + labels[0])
-    return [(sc, sig, d) for sc, sig, d, _ in fails]
+    out = []
+    for sc, sig, d, _ in fails:
+      if core.fkey(sc, sig) in collected:
+        ctx.fail(sc, sig, case, d)
+      else:
+        out.append((sc, sig, d))
+    return out
 
-  n = (4800 if ctx.quick else 160000) // ctx.n + 1
-  core.hyp_run(ctx, G.case_strategy(ctx.tier), orc, n, name="c06")
+  # The random part runs in chunks with distinct Hypothesis seeds, so that the
+  # soft time budget is honoured between chunks.
+  total = (4800 if ctx.quick else 160000) // ctx.n + 1
+  chunk = 100 if ctx.quick else 500
+  strat = G.case_strategy(ctx.tier)
+  k = rounds = 0
+  while total > 0 and ctx.time_left() > 0:
+    collected.update(ctx.failures.keys())
+    m = min(chunk, total)
+    name = "c06.%d" % k
+    core.hyp_run(ctx, strat, orc, m, name=name)
+    rounds += ctx.info.pop("hyp_rounds_" + name, 0)
+    total -= m
+    k += 1
+  if total > 0:
+    ctx.labels["inconclusive_time"] += 1
+  ctx.info["hyp_rounds_c06"] = rounds
+  ctx.info["hyp_examples_not_run"] = max(total, 0)
 
 
 def replay(ctx, case):
